@@ -1,11 +1,13 @@
 // Package c14 joins the client's auth writers with the server's authenticators (property C14).
 //
-// A case is a request description: per-operation auth writers, transport-wide default
-// writers, an optional Authorization header / headers / query / form parameters set by the
-// params writer.  The real client builds the request (Runtime.CreateHttpRequest) or sends
-// it to a real httptest.Server (Runtime.Submit); every authenticator of the case's list is
-// run on (a fresh copy of) that request with an instrumented application callback.
-// One event per authenticator; the TLA+ trace spec decides.
+// A case is a SESSION on one client.Runtime: one or more steps.  A step first (re)configures
+// the Runtime (DefaultAuthentication, Debug, base path with static query parameters), then
+// describes a request: per-operation auth writers, an optional Authorization header / headers /
+// query / form parameters set by the params writer, static query parameters of the path
+// pattern.  The real client builds the request (Runtime.CreateHttpRequest) or sends it to a
+// real httptest.Server (Runtime.Submit); every authenticator of the step's list is run on (a
+// fresh copy of) that request with an instrumented application callback.  Events: `configure`,
+// `request`, then one `auth` per authenticator; the TLA+ trace spec decides.
 package c14
 
 import (
@@ -16,6 +18,8 @@ import (
 	"io"
 	"net/http"
 	"net/http/httptest"
+	"net/url"
+	"strings"
 	"sync"
 
 	"github.com/go-openapi/runtime"
@@ -56,15 +60,24 @@ type Auth struct {
 	Wrap    string // scoped | plain : how the authenticator is invoked
 }
 
+// Step: the configuration the application sets before the request (Def, Debug, BaseStatic), the request, the authenticators.
+type Step struct {
+	Op, Def    []Writer
+	Debug      bool // Runtime.Debug (dumps go to a silent logger)
+	BaseStatic []KV // static query parameters of Runtime.BasePath
+	PatStatic  []KV // static query parameters of ClientOperation.PathPattern
+	Authz      string
+	Hdrs       []KV
+	Query      []KV
+	Form       []KV
+	Media      string // none | urlencoded | multipart
+	Transport  string // direct | server
+	Auths      []Auth
+}
+
+// Case: the steps made one after the other on ONE Runtime.
 type Case struct {
-	Op, Def   []Writer
-	Authz     string
-	Hdrs      []KV
-	Query     []KV
-	Form      []KV
-	Media     string // none | urlencoded | multipart
-	Transport string // direct | server
-	Auths     []Auth
+	Steps []Step
 }
 
 func wJSON(ws []Writer) []M {
@@ -85,13 +98,21 @@ func (a Auth) JSON() M {
 	return M{"kind": a.Kind, "name": trace.B(a.Name), "scheme": a.Scheme, "in": a.In, "realm": a.Realm, "scopes": trace.S(a.Scopes),
 		"cberr": a.CbErr, "variant": a.Variant, "wrap": a.Wrap}
 }
-func (c Case) JSON() M {
+func (c Step) JSON() M {
 	as := make([]M, 0, len(c.Auths))
 	for _, a := range c.Auths {
 		as = append(as, a.JSON())
 	}
-	return M{"op": wJSON(c.Op), "def": wJSON(c.Def), "authz": trace.B(c.Authz), "hdrs": kvJSON(c.Hdrs), "query": kvJSON(c.Query),
+	return M{"op": wJSON(c.Op), "def": wJSON(c.Def), "debug": c.Debug, "bstatic": kvJSON(c.BaseStatic), "pstatic": kvJSON(c.PatStatic),
+		"authz": trace.B(c.Authz), "hdrs": kvJSON(c.Hdrs), "query": kvJSON(c.Query),
 		"form": kvJSON(c.Form), "media": c.Media, "transport": c.Transport, "auths": as}
+}
+func (c Case) JSON() M {
+	steps := make([]M, 0, len(c.Steps))
+	for _, st := range c.Steps {
+		steps = append(steps, st.JSON())
+	}
+	return M{"steps": steps}
 }
 
 func wFrom(v any) []Writer {
@@ -111,7 +132,15 @@ func kvFrom(v any) []KV {
 	return out
 }
 func caseFrom(d M) Case {
-	c := Case{Op: wFrom(d["op"]), Def: wFrom(d["def"]), Authz: trace.Str(d["authz"]), Hdrs: kvFrom(d["hdrs"]), Query: kvFrom(d["query"]),
+	var c Case
+	for _, sx := range drv.List(d["steps"]) {
+		c.Steps = append(c.Steps, stepFrom(drv.Map(sx)))
+	}
+	return c
+}
+func stepFrom(d M) Step {
+	c := Step{Op: wFrom(d["op"]), Def: wFrom(d["def"]), Debug: drv.Bool(d["debug"]), BaseStatic: kvFrom(d["bstatic"]), PatStatic: kvFrom(d["pstatic"]),
+		Authz: trace.Str(d["authz"]), Hdrs: kvFrom(d["hdrs"]), Query: kvFrom(d["query"]),
 		Form: kvFrom(d["form"]), Media: drv.Str(d["media"]), Transport: drv.Str(d["transport"])}
 	for _, e := range drv.List(d["auths"]) {
 		m := drv.Map(e)
@@ -148,11 +177,33 @@ func mkWriter(ws []Writer) runtime.ClientAuthInfoWriter {
 	return client.Compose(out...)
 }
 
-func (c Case) operation() (*client.Runtime, *runtime.ClientOperation) {
-	rt := client.New("h:1", "/api", []string{"http"})
+// staticQuery renders static query parameters as they are written into a base path or a path pattern
+func staticQuery(kvs []KV) string {
+	if len(kvs) == 0 {
+		return ""
+	}
+	parts := make([]string, 0, len(kvs))
+	for _, e := range kvs {
+		parts = append(parts, url.QueryEscape(e.K)+"="+url.QueryEscape(e.V))
+	}
+	return "?" + strings.Join(parts, "&")
+}
+
+type silentLogger struct{}
+
+func (silentLogger) Printf(string, ...interface{}) {}
+func (silentLogger) Debugf(string, ...interface{}) {}
+
+// configure is what the application does between two requests: it REPLACES the Runtime's settings
+func (c Step) configure(rt *client.Runtime) {
 	rt.DefaultAuthentication = mkWriter(c.Def)
+	rt.Debug = c.Debug
+	rt.BasePath = "/api" + staticQuery(c.BaseStatic)
+}
+
+func (c Step) operation() *runtime.ClientOperation {
 	media := map[string]string{"none": runtime.JSONMime, "urlencoded": runtime.URLencodedFormMime, "multipart": runtime.MultipartFormMime}[c.Media]
-	op := &runtime.ClientOperation{ID: "op", Method: http.MethodPost, PathPattern: "/secured",
+	op := &runtime.ClientOperation{ID: "op", Method: http.MethodPost, PathPattern: "/secured" + staticQuery(c.PatStatic),
 		ConsumesMediaTypes: []string{media}, ProducesMediaTypes: []string{runtime.JSONMime},
 		AuthInfo: mkWriter(c.Op),
 		Params: runtime.ClientRequestWriterFunc(func(r runtime.ClientRequest, _ strfmt.Registry) error {
@@ -179,7 +230,7 @@ func (c Case) operation() (*client.Runtime, *runtime.ClientOperation) {
 			return nil
 		}),
 		Reader: runtime.ClientResponseReaderFunc(func(runtime.ClientResponse, runtime.Consumer) (any, error) { return nil, nil })}
-	return rt, op
+	return op
 }
 
 // ---- server side ---------------------------------------------------------------
@@ -286,7 +337,7 @@ var (
 	srvOnce sync.Once
 	srv     *httptest.Server
 	srvMu   sync.Mutex
-	srvCase *Case
+	srvCase *Step
 	srvObs  []obs
 )
 
@@ -316,6 +367,19 @@ func server() *httptest.Server {
 func execute(c *drv.Ctx, d M) bool {
 	cs := caseFrom(d)
 	nontrivial := false
+	// one Runtime for the whole session
+	rt := client.New("h:1", "/api", []string{"http"})
+	rt.SetLogger(silentLogger{})
+	for i := range cs.Steps {
+		if executeStep(c, rt, &cs.Steps[i]) {
+			nontrivial = true
+		}
+	}
+	return nontrivial
+}
+
+func executeStep(c *drv.Ctx, rt *client.Runtime, cs *Step) bool {
+	nontrivial := false
 	emit := func(a Auth, o obs) {
 		if o.called {
 			nontrivial = true
@@ -325,14 +389,26 @@ func execute(c *drv.Ctx, d M) bool {
 	failed := func(a Auth) {
 		c.W.Event("auth", M{"a": a.JSON(), "o": obs{scopes: []string{}}.JSON(), "built": false})
 	}
+	cs.configure(rt)
+	c.W.Event("configure", M{"def": wJSON(cs.Def), "debug": cs.Debug, "bstatic": kvJSON(cs.BaseStatic)})
+	c.W.Event("request", M{"op": wJSON(cs.Op), "authz": trace.B(cs.Authz), "hdrs": kvJSON(cs.Hdrs), "query": kvJSON(cs.Query), "form": kvJSON(cs.Form),
+		"media": cs.Media, "pstatic": kvJSON(cs.PatStatic), "transport": cs.Transport})
 	if cs.Transport == "server" {
 		s := server()
-		rt, op := cs.operation()
+		op := cs.operation()
 		rt.Host = s.Listener.Addr().String()
 		srvMu.Lock()
-		srvCase, srvObs = &cs, nil
+		srvCase, srvObs = cs, nil
 		srvMu.Unlock()
-		_, err := rt.Submit(op)
+		err := func() (err error) {
+			defer func() {
+				if e := recover(); e != nil {
+					err = fmt.Errorf("panic: %v", e)
+				}
+			}()
+			_, err = rt.Submit(op)
+			return err
+		}()
 		srvMu.Lock()
 		out := srvObs
 		srvMu.Unlock()
@@ -345,8 +421,9 @@ func execute(c *drv.Ctx, d M) bool {
 		}
 		return nontrivial
 	}
+	rt.Host = "h:1"
 	for _, a := range cs.Auths {
-		rt, op := cs.operation()
+		op := cs.operation()
 		req, err := func() (r *http.Request, err error) {
 			defer func() {
 				if e := recover(); e != nil {
@@ -423,16 +500,19 @@ func generate(c *drv.Ctx) {
 	thorough := c.Tier == "thorough"
 	maxLen := 2
 	n := 0
-	emit := func(cs Case) {
+	emitSession := func(steps ...Step) {
 		n++
-		if cs.Transport == "" {
-			cs.Transport = "direct"
-			if n%5 == 0 {
-				cs.Transport = "server"
+		for i := range steps {
+			if steps[i].Transport == "" {
+				steps[i].Transport = "direct"
+				if (n+i)%5 == 0 {
+					steps[i].Transport = "server"
+				}
 			}
 		}
-		c.Case(cs.JSON())
+		c.Case(Case{Steps: steps}.JSON())
 	}
+	emit := func(cs Step) { emitSession(cs) }
 	// (i) strings: every user / password / key / token over the atom alphabet
 	all := stringsUpTo(maxLen, atoms)
 	users := stringsUpTo(maxLen, "a \xc3+%=&")
@@ -441,19 +521,19 @@ func generate(c *drv.Ctx) {
 	}
 	for _, u := range users {
 		for _, p := range all {
-			emit(Case{Op: []Writer{{T: "basic", U: u, P: p}}, Media: "none", Auths: variants(Auth{Kind: "basic", Realm: "r"})})
+			emit(Step{Op: []Writer{{T: "basic", U: u, P: p}}, Media: "none", Auths: variants(Auth{Kind: "basic", Realm: "r"})})
 		}
 	}
 	for _, v := range all {
-		emit(Case{Op: []Writer{{T: "apikey", Name: "k", In: "query", P: v}}, Media: "none",
+		emit(Step{Op: []Writer{{T: "apikey", Name: "k", In: "query", P: v}}, Media: "none",
 			Auths: append(variants(Auth{Kind: "apikey", Name: "k", In: "query"}), variants(Auth{Kind: "apikey", Name: "K", In: "query"})...)})
-		emit(Case{Query: []KV{{"access_token", v}}, Media: "none", Auths: variants(Auth{Kind: "bearer", Scheme: "oauth", Scopes: []string{"s1", "s2"}})})
-		emit(Case{Form: []KV{{"access_token", v}, {"other", "x"}}, Media: []string{"urlencoded", "multipart"}[len(v)%2],
+		emit(Step{Query: []KV{{"access_token", v}}, Media: "none", Auths: variants(Auth{Kind: "bearer", Scheme: "oauth", Scopes: []string{"s1", "s2"}})})
+		emit(Step{Form: []KV{{"access_token", v}, {"other", "x"}}, Media: []string{"urlencoded", "multipart"}[len(v)%2],
 			Auths: variants(Auth{Kind: "bearer", Scheme: "oauth", Scopes: []string{"s1"}})})
 		if headerSafe(v) {
-			emit(Case{Op: []Writer{{T: "apikey", Name: "X-API-Key", In: "header", P: v}}, Media: "none",
+			emit(Step{Op: []Writer{{T: "apikey", Name: "X-API-Key", In: "header", P: v}}, Media: "none",
 				Auths: append(variants(Auth{Kind: "apikey", Name: "x-api-key", In: "header"}), variants(Auth{Kind: "apikey", Name: "X-Api-Key", In: "header"})...)})
-			emit(Case{Op: []Writer{{T: "bearer", P: v}}, Media: "none", Auths: variants(Auth{Kind: "bearer", Scheme: "oauth2", Scopes: []string{"read", "write"}})})
+			emit(Step{Op: []Writer{{T: "bearer", P: v}}, Media: "none", Auths: variants(Auth{Kind: "bearer", Scheme: "oauth2", Scopes: []string{"read", "write"}})})
 		}
 	}
 	// (ii) structure: operation auth (none / one / Compose of two) x default auth x presets x all authenticators
@@ -492,7 +572,7 @@ func generate(c *drv.Ctx) {
 					if mask&4 == 0 && media != "none" {
 						continue
 					}
-					cs := Case{Op: op, Def: def, Media: media, Auths: apool}
+					cs := Step{Op: op, Def: def, Media: media, Auths: apool}
 					if mask&1 != 0 {
 						cs.Authz = "Custom x"
 					}
@@ -514,10 +594,12 @@ func generate(c *drv.Ctx) {
 	for _, media := range []string{"urlencoded", "multipart"} {
 		for _, tr := range []string{"direct", "server"} {
 			for _, op := range [][]Writer{nil, {{T: "bearer", P: ""}}, {{T: "basic", U: "u", P: "p"}}, {{T: "apikey", Name: "access_token", In: "query", P: ""}}} {
-				emit(Case{Op: op, Media: media, Transport: tr, Query: []KV{{"access_token", ""}}, Form: []KV{{"access_token", tok(9)}, {"other", "x"}}, Auths: apool})
+				emit(Step{Op: op, Media: media, Transport: tr, Query: []KV{{"access_token", ""}}, Form: []KV{{"access_token", tok(9)}, {"other", "x"}}, Auths: apool})
 			}
 		}
 	}
+	// (iv)-(vi) static query parameters, Debug, sessions with the configuration replaced between requests
+	genExtra(thorough, apool, emit, emitSession)
 	c.Extra["exhaustive_cases"] = n
 	// (iii) seeded random: arbitrary strings
 	nr := 5000
@@ -526,6 +608,13 @@ func generate(c *drv.Ctx) {
 	}
 	for i := 0; i < nr; i++ {
 		emit(randomCase(c))
+	}
+	ns := 600
+	if thorough {
+		ns = 6000
+	}
+	for i := 0; i < ns; i++ {
+		emitSession(randomSession(c)...)
 	}
 }
 
@@ -553,7 +642,7 @@ func randHeaderSafe(c *drv.Ctx, max int) string {
 	}
 }
 
-func randomCase(c *drv.Ctx) Case {
+func randomCase(c *drv.Ctx) Step {
 	r := c.Rng
 	hdrNames := []string{"X-API-Key", "x-api-key", "X_Token", "Api.Key", "AUTH-TOKEN"}
 	qNames := []string{"k", "api_key", "access_token", "a b", "k&x", "\xc3\xa9"}
@@ -575,7 +664,7 @@ func randomCase(c *drv.Ctx) Case {
 		}
 		return Writer{T: "bearer", P: randHeaderSafe(c, 16)}
 	}
-	var cs Case
+	var cs Step
 	for i, k := 0, r.Intn(3); i < k; i++ {
 		cs.Op = append(cs.Op, mk())
 	}
@@ -612,5 +701,6 @@ func randomCase(c *drv.Ctx) Case {
 	} else {
 		cs.Transport = "direct"
 	}
+	randomConfig(c, &cs)
 	return cs
 }
